@@ -404,7 +404,13 @@ func (t *taskTrace) Do(options ...DoOption) {
 	}
 
 	response := newDoOption(options...)
-	t.forward <- *response
+	// Only the first answer is consumed. A further answer that finds the one-slot
+	// channel still occupied must not block its caller forever: it is released (and
+	// dropped) as soon as the request is closed.
+	select {
+	case t.forward <- *response:
+	case <-t.done:
+	}
 }
 
 func (t *taskTrace) process() {
